@@ -15,6 +15,8 @@ import (
 	"time"
 
 	"seehuhn.de/go/pdf"
+	"seehuhn.de/go/pdf/acroform"
+	annotdecode "seehuhn.de/go/pdf/annotation/decode"
 	"seehuhn.de/go/pdf/font"
 	"seehuhn.de/go/pdf/font/dict"
 	"seehuhn.de/go/pdf/font/glyphdata"
@@ -64,6 +66,9 @@ type obs struct {
 	chars      int
 	olItems    int    // outline items decoded
 	nameKeys   int    // entries the destination name tree yielded
+	annots     int    // annotations the per-page annotation reader returned
+	pageAnnots int    // annotations the page decoder returned
+	formNodes  int    // nodes of the interactive form's field tree
 	inner      uint64 // allocation of the stages nested in the current one
 	alloc      uint64
 	allocBy    map[string]uint64 // allocation per stage
@@ -225,6 +230,16 @@ func walk(data []byte, password string, mode int) (o obs) {
 					pg, err = pdf.Decode(pdf.CursorAt(x, nil), pageDict, page.Decode)
 					return err
 				})
+				if pg != nil {
+					o.pageAnnots += len(pg.Annots)
+				}
+				// the page's annotations once more, the way cmd/pdf-annotations and
+				// printprep read them: a second consumer on the same extractor
+				o.guard("annots", func() error {
+					_, as, err := annotdecode.PageAnnotations(pdf.CursorAt(x, nil), pageDict["Annots"])
+					o.annots += len(as)
+					return err
+				})
 				// every font resource, whether or not the page decoded
 				o.guard("fonts", func() error { return o.fonts_(x, pageDict, seenFont) })
 				if pg != nil {
@@ -255,6 +270,24 @@ func walk(data []byte, password string, mode int) (o obs) {
 			return err
 		})
 		o.guard("names", func() error { return o.names(r, meta.Catalog) })
+		// the interactive form, through the extractor the pages were read with
+		o.guard("form", func() error {
+			form, err := pdf.Decode(pdf.CursorAt(x, nil), meta.Catalog.AcroForm, annotdecode.Form)
+			if form != nil {
+				todo := [][]acroform.Node{form.Fields}
+				for len(todo) > 0 {
+					nodes := todo[len(todo)-1]
+					todo = todo[:len(todo)-1]
+					o.formNodes += len(nodes)
+					for _, nd := range nodes {
+						if g, ok := nd.(*acroform.Group); ok && len(g.Children) > 0 {
+							todo = append(todo, g.Children)
+						}
+					}
+				}
+			}
+			return err
+		})
 	}
 	return o
 }
